@@ -28,7 +28,7 @@ for P in "$@"; do
 done
 cd /repo && git checkout -q -- . && git status --short | head -3
 # the evidence files now describe runs against the changed tree: restore the committed (clean-tree) ones
-cd /verif && git checkout -q -- evidence 2>/dev/null
+cd /verif && git checkout -q -- evidence 2>/dev/null; python3 harness/translate.py >/dev/null 2>&1   # Gen/ back to the clean source
 python3 - "$ID" "$SUITE" "$DEMO_WITH" "$DEMO_WITHOUT" "$RES" "$@" <<'PY'
 import json,sys,os
 i,suite,dw,dwo,res=sys.argv[1:6]; props=sys.argv[6:]
